@@ -2,11 +2,12 @@ pub mod c01;
 pub mod c02;
 pub mod c04;
 pub mod c05;
+pub mod c06;
 
 use crate::engine::Property;
 
 pub fn all() -> Vec<Property> {
-    vec![c01::property(), c02::property(), c04::property(), c05::property()]
+    vec![c01::property(), c02::property(), c04::property(), c05::property(), c06::property()]
 }
 
 /// Non-tape engines (libFuzzer campaigns, subprocess sweeps) attached to a property.
